@@ -49,6 +49,10 @@ pub enum Op {
     /// the same with the amount sized so that the vault's protocol fee on it is `fee_units` base units
     /// (fee states of a vault: 1, just below / at / just above 1000, a few hundred)
     TinyLoan { vault: u8, fee_units: u16, user: u8 },
+    /// swap on pair i sized (by bisection over the pair's own Simulation query) so that the pending
+    /// protocol fee of the asked asset lands exactly on `target` (999 / 1000 / 1001 = around the pools'
+    /// collection threshold, or a random small value)
+    SwapToPending { pair: u8, dir: bool, target: u16, user: u8 },
     SetTakeRate { rate: TakeRate, dao: bool },
     /// route management: 0 uusdc->uwhale, 1 tokx->uwhale, 2 uatom->uusdc->uwhale
     AddRoute { which: u8 },
@@ -111,6 +115,7 @@ fn op() -> BoxedStrategy<Op> {
         3 => (0u8..3, any::<bool>(), 1u16..3000, 0u8..3).prop_map(|(pair, dir, units, user)| Op::TinySwap { pair, dir, units, user }),
         5 => (0u8..3, 1u16..40000, 0u8..3).prop_map(|(vault, k, user)| Op::Loan { vault, k, user }),
         3 => (0u8..3, prop_oneof![Just(1u16), Just(999), Just(1000), Just(1001), 1u16..1000, 1u16..3000], 0u8..3).prop_map(|(vault, fee_units, user)| Op::TinyLoan { vault, fee_units, user }),
+        3 => (0u8..3, any::<bool>(), prop_oneof![1 => Just(999u16), 3 => Just(1000u16), 1 => Just(1001u16), 2 => 1u16..3000], 0u8..3).prop_map(|(pair, dir, target, user)| Op::SwapToPending { pair, dir, target, user }),
         3 => (take_rate(), any::<bool>()).prop_map(|(rate, dao)| Op::SetTakeRate { rate, dao }),
         2 => (0u8..3).prop_map(|which| Op::AddRoute { which }),
         1 => (0u8..3).prop_map(|which| Op::RemoveRoute { which }),
@@ -480,7 +485,7 @@ impl Check for FeePipeline {
         "fee_pipeline_new_epoch"
     }
     fn rule(&self) -> &'static str {
-        "full hub: 3 constant-product pairs (uwhale/uusdc, uwhale/cw20, uusdc/uatom), 3 vaults (uwhale, uusdc, cw20), pool router with generated initial routes to the distribution asset (1-hop, 1-hop cw20, 2-hop), collector, distributor (grace 1..4), lair; up to 40/100 operations {swaps and tiny swaps (fee states 0 / <= 1000 / above), router flash loans and tiny router flash loans (vault fee states 1 / 999 / 1000 / 1001 / a few hundred), take-rate changes in {inactive, 0, 1e-18, 0.1, ~1, random} with/without DAO address, add/remove route, disable swaps on a pair (simulation passes, execution fails), de-register a pair, drain a pair's liquidity, donations to the collector, ForwardFees by non-distributors, claims, grace-period increases, NewEpoch on time or late}; one hub in eight has 14 children per factory (more than a default page), one in twenty-five has 31 (more than the page of 30 ForwardFees asks for: an observed pair and vault beyond it keep their fees — listed finding forward-fees-single-page — and the rest of the oracle goes on). Oracle per NewEpoch: failure => world snapshot unchanged; success => every registered pair's pending entries above 1000 and every vault's pending fees are 0 and what left them arrived in the collector, each non-distribution asset in the collector is either untouched (+collected) or fully swapped (0), the pool router holds nothing, DAO delta == floor(rate * (DAO delta + distributor inflow)) iff the take rate is active (and TakeRateHistory records it) else 0, distributor inflow == new epoch total - rolled-over remainder, the collector's distribution-asset balance is 0 afterwards. ForwardFees from anyone but the distributor is rejected. Non-trivial: a successful NewEpoch with non-zero collected fees from >= 1 pair and >= 1 vault."
+        "full hub: 3 constant-product pairs (uwhale/uusdc, uwhale/cw20, uusdc/uatom), 3 vaults (uwhale, uusdc, cw20), pool router with generated initial routes to the distribution asset (1-hop, 1-hop cw20, 2-hop), collector, distributor (grace 1..4), lair; up to 40/100 operations {swaps, tiny swaps and swaps sized by bisection over the Simulation query so that a pair's pending fee lands exactly on 999 / 1000 / 1001 (fee states 0 / <= 1000 / exactly the threshold / above), router flash loans and tiny router flash loans (vault fee states 1 / 999 / 1000 / 1001 / a few hundred), take-rate changes in {inactive, 0, 1e-18, 0.1, ~1, random} with/without DAO address, add/remove route, disable swaps on a pair (simulation passes, execution fails), de-register a pair, drain a pair's liquidity, donations to the collector, ForwardFees by non-distributors, claims, grace-period increases, NewEpoch on time or late}; one hub in eight has 14 children per factory (more than a default page), one in twenty-five has 31 (more than the page of 30 ForwardFees asks for: an observed pair and vault beyond it keep their fees — listed finding forward-fees-single-page — and the rest of the oracle goes on). Oracle per NewEpoch: failure => world snapshot unchanged; success => every registered pair's pending entries above 1000 and every vault's pending fees are 0 and what left them arrived in the collector, each non-distribution asset in the collector is either untouched (+collected) or fully swapped (0), the pool router holds nothing, DAO delta == floor(rate * (DAO delta + distributor inflow)) iff the take rate is active (and TakeRateHistory records it) else 0, distributor inflow == new epoch total - rolled-over remainder, the collector's distribution-asset balance is 0 afterwards. ForwardFees from anyone but the distributor is rejected. Non-trivial: a successful NewEpoch with non-zero collected fees from >= 1 pair and >= 1 vault."
     }
     fn strategy(&self, tier: Tier) -> BoxedStrategy<Case> {
         let max_ops = tier.pick(40usize, 100usize);
@@ -537,6 +542,44 @@ impl Check for FeePipeline {
                     let who = h.w.users[(*user % 3) as usize].clone();
                     if h.swap((*pair % 3) as usize, *dir, *units as u128, &who).is_ok() {
                         rec.class("tiny_swap_ok");
+                    }
+                }
+                Op::SwapToPending { pair, dir, target, user } => {
+                    let i = (*pair % 3) as usize;
+                    let who = h.w.users[(*user % 3) as usize].clone();
+                    let pa = h.pair_assets[i];
+                    let (oi, ai) = if *dir { (pa[1], pa[0]) } else { (pa[0], pa[1]) };
+                    let pending = h.pair_pending(i).iter().find(|(k, _)| *k == ai).map(|(_, a)| *a).unwrap_or(0);
+                    let target = *target as u128;
+                    if pending >= target {
+                        continue;
+                    }
+                    let need = target - pending;
+                    let fee_of = |h: &Hub, x: u128| -> Option<u128> {
+                        let r: Result<pair::SimulationResponse, _> =
+                            h.w.query(&h.pairs[i], &pair::QueryMsg::Simulation { offer_asset: asset(&h.assets[oi], x) });
+                        r.ok().map(|s| s.protocol_fee_amount.u128())
+                    };
+                    let cap = h.w.bal(&h.assets[oi], &h.pairs[i]).saturating_mul(2).min(h.w.bal(&h.assets[oi], &who));
+                    let (mut lo, mut hi) = (1u128, cap);
+                    if hi < 1 || fee_of(&h, hi).map(|f| f < need).unwrap_or(true) {
+                        continue;
+                    }
+                    while lo < hi {
+                        let mid = lo + (hi - lo) / 2;
+                        match fee_of(&h, mid) {
+                            Some(f) if f >= need => hi = mid,
+                            _ => lo = mid + 1,
+                        }
+                    }
+                    if fee_of(&h, lo) != Some(need) {
+                        continue;
+                    }
+                    if h.swap(i, *dir, lo, &who).is_ok() {
+                        rec.class("swap_to_pending_fee_target_ok");
+                        if target == pair_threshold() {
+                            rec.class("pair_pending_fee_exactly_at_collection_threshold");
+                        }
                     }
                 }
                 Op::Loan { .. } | Op::TinyLoan { .. } => {
